@@ -77,6 +77,25 @@ fn main() {
             println!("input bytes: {:?}", i2);
             0
         }
+        "dbg-sbs" => {
+            // print how the side-by-side rows of a replay's saved output are split into panels
+            let v: serde_json::Value = serde_json::from_str(&std::fs::read_to_string(&args[3]).unwrap()).unwrap();
+            let c = &v["detail"]["case"];
+            let argv: Vec<String> = c["argv"].as_array().unwrap().iter().map(|x| x.as_str().unwrap().to_string()).collect();
+            let cfg = minimize::cfg_from_argv(&argv, c["gitconfig"].as_str().map(|s| s.to_string()));
+            let input = exec::unhex(c["input_hex"].as_str().unwrap_or(""));
+            dut::verif_api::set_calling_process(&["git".to_string(), "diff".to_string()]);
+            let ctx = runner::Ctx::new(Tier::Quick, 0, vec![], runner::verif_root().join("target/scratch"), 96);
+            let out = exec::run_cfg(&cfg, &ctx, &input).unwrap();
+            let sc = term::decode(&out);
+            for (i, r) in sc.rows.iter().enumerate() {
+                match rows::split_sbs(r) {
+                    Some((l, rr)) => println!("{:3} L{:?}@{} `{}` | R{:?}@{} `{}`", i, l.numbers, l.content_col, l.cells.iter().map(|c| format!("{}", c.0)).collect::<String>(), rr.numbers, rr.start_col, rr.cells.iter().map(|c| c.0.clone()).collect::<String>()),
+                    None => println!("{:3} -- `{}`", i, r.text()),
+                }
+            }
+            0
+        }
         "describe" => runner::describe_main(prop.as_ref(), &PathBuf::from(&args[3])),
         "replay" => {
             let quiet = args.iter().any(|a| a == "--quiet");
